@@ -1,5 +1,6 @@
 """C10 — sockets are opened, announced, used and closed in a consistent protocol."""
 from lib import *  # noqa
+import ownrules
 
 EXPLANATION = (
     "Decides the call-protocol clauses of C10 on every CFG path of the analysed configuration: "
@@ -591,6 +592,8 @@ def run(prog, R, tier):
     r_announce(prog, R)
     r_udpmax(prog, R)
     r_legacy(prog, R)
+    # a connection object that was closed and freed is referenced from nowhere (a dangling server->tcp_conn means I/O on a closed socket)
+    ownrules.own_rule(prog, R, "R-C10-OWN", {"src/lib/ares_conn.c", "src/lib/ares_close_sockets.c", "src/lib/ares_socket.c"}, floor=2)
     # ares_socket_close ignores BAD
     r = R.rule("R-C10-BADFD", "ares_socket_close returns early for ARES_SOCKET_BAD", floor=1, analysis="A-DOM")
     f = prog.func("ares_socket_close")
